@@ -203,7 +203,7 @@ def run_tlc(module, cfg=None, env=None, workers=None, timeout=1800, extra=None, 
     for f in os.listdir(SPEC):
         if f.endswith((".tla", ".cfg")):
             shutil.copy(os.path.join(SPEC, f), d)
-    cmd = ["java", "-XX:+UseParallelGC", "-Xss512m", "-Xmx12g", "-cp", TLA_CP, "tlc2.TLC",
+    cmd = ["java", "-XX:+UseParallelGC", "-Xss512m", "-Xmx12g", "-Dfile.encoding=UTF-8", "-cp", TLA_CP, "tlc2.TLC",
            "-workers", str(workers or NCPU), "-metadir", os.path.join(d, "meta"), "-noGenerateSpecTE"]
     if cfg:
         cmd += ["-config", cfg]
@@ -254,10 +254,11 @@ def materialise_and_judge(scs, tags="", l2=False):
     with open(os.path.join(sdir, "scen_all.ndjson"), "w") as fh:
         for sc in scs:
             fh.write(json.dumps(sc) + "\n")
-    peg = build_peg(tags)
+    peg = build_peg("" if tags == "racebatch" else tags)
     obs = os.path.join(work, "obs.ndjson")
     r = subprocess.run([driver_bin(), "corpus", "-scen", os.path.join(sdir, "scen_*.ndjson"), "-peg", peg,
-                        "-work", work, "-out", obs, "-j", str(NCPU), "-gocache", gocache()] + (["-verif"] if tags == "verif" else []),
+                        "-work", work, "-out", obs, "-j", str(NCPU), "-gocache", gocache()] + (["-verif"] if tags == "verif" else [])
+                       + (["-race"] if tags == "racebatch" else []),
                        capture_output=True, text=True, env=go_env())
     if r.returncode != 0:
         raise Infra("driver corpus failed:\n" + r.stdout + r.stderr)
@@ -315,11 +316,11 @@ def materialise_and_judge(scs, tags="", l2=False):
     return mis, stats, info
 
 
-def generate(family, n, sd, evs=False):
+def generate(family, n, sd, evs=False, conc=0):
     work = scratch("verif-gen-")
     chunks = min(NCPU, max(1, n // 4))
     g = run_tlc("GenCorpus", "GenCorpus.cfg", env=dict(GEN_FAMILY=family, GEN_SEED=sd, GEN_N=n, GEN_CHUNKS=chunks, GEN_OUT=work,
-                                                        GEN_EVS="1" if evs else "0"))
+                                                        GEN_EVS="1" if evs else "0", GEN_CONC=str(conc)))
     scs = []
     for p in sorted(glob.glob(os.path.join(work, "scen_*.ndjson"))):
         scs += read_ndjson(p)
@@ -339,7 +340,7 @@ def corpus_pipeline(family, n, sd, tags="", l2=False):
         if os.path.exists(path):
             with open(path) as fh:
                 return json.load(fh)
-        scs, ginfo = generate(family, n, sd, evs=l2)
+        scs, ginfo = generate(family, n, sd, evs=l2, conc=4 if tags == "racebatch" else 0)
         mis, stats, jinfo = materialise_and_judge(scs, tags, l2=l2)
         by_id = {s["id"]: s for s in scs}
         for m in mis:
@@ -476,6 +477,83 @@ def l0_pegvm(family, n, sd, maxin=60):
             raise Infra("could not read per-action coverage from TLC output")
         res = dict(family=family, scenarios=len(scs), states=r["distinct"], transitions=r["states"], wall=round(r["wall"], 1),
                    actions=acts, actions_never_taken=sorted(a for a, c in acts.items() if c == 0))
+        shutil.rmtree(work, ignore_errors=True)
+        with open(key, "w") as fh:
+            json.dump(res, fh)
+        return res
+
+
+# ---------------------------------------------------------------------------
+# front-end harness: a copy of the repository's generated front end (peg.peg.go, package main)
+# linked with harness/fe/fe_main.go.txt
+
+def build_fe(variant="", frontend_src=None):
+    """variant names the build; frontend_src: path of the peg.peg.go to link (default: the checked-in one)."""
+    out = os.path.join(cache_dir(), "fe" + ("-" + variant if variant else ""))
+    with Lock("build-fe-" + variant):
+        if os.path.exists(out):
+            return out
+        d = scratch("verif-fe-")
+        shutil.copy(frontend_src or os.path.join(REPO, "peg.peg.go"), os.path.join(d, "peg.peg.go"))
+        shutil.copy(os.path.join(VERIF, "harness", "fe", "fe_main.go.txt"), os.path.join(d, "fe_main.go"))
+        with open(os.path.join(d, "go.mod"), "w") as fh:
+            fh.write(f"module fe\n\ngo 1.25\n\nrequire github.com/pointlander/peg v0.0.0\n\nreplace github.com/pointlander/peg => {REPO}\n")
+        r = subprocess.run(["go", "build", "-o", out + ".tmp", "."], cwd=d, env=go_env(), capture_output=True, text=True)
+        if r.returncode != 0:
+            raise Infra("building the front-end harness failed (does the change compile?):\n" + r.stdout + r.stderr)
+        os.replace(out + ".tmp", out)
+        shutil.rmtree(d, ignore_errors=True)
+    return out
+
+
+def syntax_pipeline(n, sd, mutations):
+    key = os.path.join(cache_dir(), f"syntax_{n}_{sd}_{mutations}_{harness_hash()}.json")
+    with Lock("syntax"):
+        if os.path.exists(key):
+            with open(key) as fh:
+                return json.load(fh)
+        scs, ginfo = generate("syntax", n, sd)
+        work = scratch("verif-syntax-")
+        inp = os.path.join(work, "in.ndjson")
+        with open(inp, "w") as fh:
+            for sc in scs:
+                fh.write(json.dumps(dict(id=sc["id"], text=sc["text"])) + "\n")
+        outp = os.path.join(work, "out.ndjson")
+        r = subprocess.run([build_fe(), "-in", inp, "-out", outp, "-mutations", str(mutations), "-seed", str(sd)],
+                           capture_output=True, text=True, timeout=1800)
+        if r.returncode != 0:
+            raise Infra("front-end harness failed:\n" + r.stdout[-2000:] + r.stderr[-2000:])
+        outs = {}
+        for o in read_ndjson(outp):
+            outs.setdefault(o["id"], []).append(o)
+        joined = os.path.join(work, "joined.ndjson")
+        with open(joined, "w") as fh:
+            for sc in scs:
+                if sc["id"] not in outs:
+                    raise Infra(f"no front-end result for scenario {sc['id']}")
+                fh.write(json.dumps(dict(sc=sc, outs=outs[sc["id"]])) + "\n")
+        vdir = os.path.join(work, "verdict")
+        os.makedirs(vdir)
+        ch = min(NCPU, len(scs))
+        j = run_tlc("JudgeSyntax", "JudgeSyntax.cfg", env=dict(JUDGE_IN=joined, JUDGE_OUT=vdir, JUDGE_CHUNKS=ch), timeout=3600)
+        recs = []
+        files = sorted(glob.glob(os.path.join(vdir, "verdict_*.ndjson")))
+        if len(files) != ch:
+            raise Infra("judge did not write every chunk")
+        for p in files:
+            recs += read_ndjson(p)
+        stats = [x for x in recs if x["kind"] == "stat"]
+        if len(stats) != len(scs):
+            raise Infra("judge did not judge every scenario")
+        mis = [x for x in recs if x["kind"] == "mis"]
+        by = {s["id"]: s for s in scs}
+        for m in mis:
+            m["text"] = by[m["id"]]["text"]
+            m["seed"] = sd
+        res = dict(verdicts=mis, scenarios=len(scs), outs=sum(x["outs"] for x in stats), rejected=sum(x["rejected"] for x in stats),
+                   accepted=sum(x["accepted"] for x in stats),
+                   samples=[dict(style=s["style"], text=s["text"].split("}", 1)[-1][:300]) for s in scs[:4]],
+                   tlc=[ginfo, dict(step="judge", wall=round(j["wall"], 1))])
         shutil.rmtree(work, ignore_errors=True)
         with open(key, "w") as fh:
             json.dump(res, fh)
